@@ -277,8 +277,28 @@ class Facts:
             del self.d[k]
 
     def meet(self, other: "Facts") -> "Facts":
+        """Join of two path states: a fact survives if it is present on one side and entailed by the other.
+        When the two sides disagree on the None-ness of a variable, facts of one side only are kept as
+        conditional facts on that None-ness (discharged when a later test re-establishes it)."""
         n = Facts()
-        n.d = {k: f for k, f in self.d.items() if k in other.d}
+        for a, b in ((self, other), (other, self)):
+            for k, f in a.d.items():
+                if k in b.d:
+                    n.d[k] = f
+                elif isinstance(f, Lin) and len(b.d) <= 40 and b.entails(f):
+                    n.d[k] = f
+        # None-ness split
+        for a, b in ((self, other), (other, self)):
+            for tag, opp in (("notnone", "none"), ("none", "notnone")):
+                for t in a.tagged(tag):
+                    v = t[1]
+                    if (opp, v) in b.d:
+                        for k, f in a.d.items():
+                            if k in n.d or k == t:
+                                continue
+                            if isinstance(f, Lin) or (not isinstance(f, Lin) and f[0] not in ("cond",)):
+                                c = ("cond", (tag, v), _fact_key(f), f)
+                                n.d[_fact_key(c)] = c
         return n
 
     def same(self, other) -> bool:
@@ -576,26 +596,38 @@ class GuardAnalysis:
             return
 
     def _run(self):
+        """Round-robin dataflow: IN[n] is recomputed from the current OUT of every already-visited incoming edge."""
         g = self.g
+        OUT = {}
         IN = {g.entry: Facts(self.entry_facts)}
         work = [g.entry]
+        queued = {g.entry}
         iters = 0
         while work:
             iters += 1
             if iters > 20000:
                 break
-            n = work.pop()
+            n = work.pop(0)
+            queued.discard(n)
+            if n != g.entry:
+                ins = [OUT[(p, n, lab)] for p, lab in g.pred[n] if (p, n, lab) in OUT]
+                if not ins:
+                    continue
+                cur = ins[0]
+                for x in ins[1:]:
+                    cur = cur.meet(x)
+                if n in IN and cur.same(IN[n]) and all((n, m, lab) in OUT for m, lab in g.succ[n]):
+                    continue
+                IN[n] = cur
             fin = IN[n]
             for m, lab in g.succ[n]:
                 out = self._out(n, lab, fin)
-                if m not in IN:
-                    IN[m] = out
-                    work.append(m)
-                else:
-                    new = IN[m].meet(out)
-                    if not new.same(IN[m]):
-                        IN[m] = new
+                key = (n, m, lab)
+                if key not in OUT or not OUT[key].same(out):
+                    OUT[key] = out
+                    if m not in queued:
                         work.append(m)
+                        queued.add(m)
         self.IN = IN
 
     def facts_at(self, stmt_or_expr) -> Facts | None:
